@@ -39,9 +39,14 @@ def body_lattice(S, spec):
         modes = [f"m{k}" for k in range(n)]
     F = Fock(modes)
     like = like_for(S)
-    tv = {frozenset(e): S.scalar(f"t{k}") for k, e in enumerate(edges)}
-    vv = {frozenset(e): S.scalar(f"V{k}") for k, e in enumerate(edges)}
-    mv = {s: S.scalar(f"mu{k}") for k, s in enumerate(sites)}
+    zeros = spec.get("zeros", ())  # coefficients that are the literal 0.0 (impurity-style set-ups: the builders skip such terms)
+
+    def sc(name):
+        return 0.0 if name in zeros else S.scalar(name)
+
+    tv = {frozenset(e): sc(f"t{k}") for k, e in enumerate(edges)}
+    vv = {frozenset(e): sc(f"V{k}") for k, e in enumerate(edges)}
+    mv = {s: sc(f"mu{k}") for k, s in enumerate(sites)}
     kind = spec["kind"]
     if kind == "dict":
         t = {((b, a) if k % 2 else (a, b)): tv[frozenset((a, b))] for k, (a, b) in enumerate(edges)}
@@ -65,7 +70,7 @@ def body_lattice(S, spec):
                 zt.ctl().assume(z3.Real(nm) != 0, "input: coefficients non-zero", light=True)
     if spinful:
         # V plays the role of the on-site U (a node coefficient)
-        uv = {s_: S.scalar(f"U{k}") for k, s_ in enumerate(sites)}
+        uv = {s_: sc(f"U{k}") for k, s_ in enumerate(sites)}
         if kind == "dict":
             U = dict(uv)
         elif kind == "callable":
@@ -206,6 +211,11 @@ def build_family(tier, seed):
                     if sym == "Z2" and ns == 3:
                         continue
                     sf.append(dict(sym=sym, edges=edges, charge=q, kind=("dict", "scalar", "callable")[(gi + ns) % 3], model="spinful"))
+    # site-/bond-dependent coefficients where some are exactly zero (only meaningful for the dict and callable containers)
+    zsf = [dict(c, zeros=z) for k, c in enumerate(sf) if c["kind"] != "scalar" for z in ((("U0",), ("U1", "mu0"))[k % 2],)]
+    sf = sf + zsf
+    zsl = [dict(c, zeros=(("V0",), ("mu0",), ("t0", "mu1"), ("V0", "mu1"))[k % 4]) for k, c in enumerate(cases) if c["kind"] != "scalar"][::4]
+    cases = cases + zsl
     groups["lattice-spinful"] = ([dict(body="body_lattice", spec=c, sample=(i % 30 == 0), seed=seed + i) for i, c in enumerate(sf)], False)
     cases, ex = fam.thin(cases, 900 if not thorough else 6000, seed)
     groups["lattice-spinless"] = ([dict(body="body_lattice", spec=c, validate=(i % 60 == 0), sample=(i % 300 == 0), seed=seed + i) for i, c in enumerate(cases)], ex)
